@@ -6,7 +6,7 @@
    after the operation — hence not in a released one (ArenaWrites.v).  Writes to chunk headers are
    not modelled; they, and reads, are monitored on the implementation (poisoning, guard bytes). *)
 From Coq Require Import ZArith List Permutation.
-From BS Require Import Word BumpSpec ChunkSpec Arena ArenaInv ArenaStats ArenaMisc ArenaExt ArenaInv2 ArenaWrites ArenaHeader.
+From BS Require Import Word BumpSpec ChunkSpec Arena ArenaInv ArenaStats ArenaMisc ArenaExt ArenaInv2 ArenaWrites ArenaHeader ArenaLinks.
 Import ListNotations.
 Open Scope Z_scope.
 
@@ -84,6 +84,26 @@ Theorem C05_live_block_misses_every_header :
   disjoint_rng (bptr b) (bsize b) (header_start c ch) (hs c).
 Proof. exact live_block_misses_every_header. Qed.
 
+(* the walks over the chunk list while chunks are given back (ArenaLinks.v: the loops of raw_bump.rs statement by
+   statement, their shape checked against the source by tools/allocsites.py): Drop releases every chunk exactly once
+   and never reads a header of a released chunk; reset releases every chunk but the last exactly once; releasing a
+   chunk BEFORE reading its link is a use after free whenever a later chunk exists *)
+Theorem C05_drop_releases_every_chunk_once :
+  forall n i, (i < n)%nat ->
+  exists st', run_drop true (ArenaLinks.fresh n) i = WOk st' /\ Permutation (hreleased st') (seq 0 n).
+Proof. exact drop_releases_every_chunk_once. Qed.
+
+Theorem C05_reset_keeps_exactly_the_last_chunk :
+  forall n i, (i < n)%nat ->
+  exists st', run_reset (ArenaLinks.fresh n) i = WOk (st', (n - 1)%nat) /\ Permutation (hreleased st') (seq 0 (n - 1)).
+Proof. exact reset_keeps_exactly_the_last_chunk. Qed.
+
+Theorem C05_release_before_link_is_use_after_free :
+  forall n i, (S i < n)%nat ->
+  exists st1, fe_prev true n (ArenaLinks.fresh n) (match i with O => None | S j => Some j end) = WOk st1 /\
+              fe_next false n st1 (Some (S i)) = WUaf.
+Proof. exact release_before_link_uaf_general. Qed.
+
 Print Assumptions C05_drop_releases_each_chunk_once.
 Print Assumptions C05_released_layout_fits.
 Print Assumptions C05_reset_keeps_exactly_last.
@@ -94,3 +114,6 @@ Print Assumptions C05_shrink_writes_stay_inside_granted_blocks.
 Print Assumptions C05_result_block_is_live.
 Print Assumptions C05_header_inside_granted_block.
 Print Assumptions C05_live_block_misses_every_header.
+Print Assumptions C05_drop_releases_every_chunk_once.
+Print Assumptions C05_reset_keeps_exactly_the_last_chunk.
+Print Assumptions C05_release_before_link_is_use_after_free.
